@@ -1,3 +1,4 @@
+#![allow(unused_parens)]
 #[macro_use]
 pub mod core;
 pub mod bp;
